@@ -1,8 +1,10 @@
 // C37 - model loading never crashes and enforces the schema.
 //
-// One executable, two modes:
+// One source, two modes (and a third build: -DVF_PLAIN_MAIN = worker only, linked against the rel library):
 //   * libFuzzer target (default):  LLVMFuzzerTestOneInput runs the loader on the fuzzer's bytes.
-//   * worker (argv contains --vf-worker=<rfd>,<wfd>): length-prefixed documents arrive on <rfd>, one result
+//   * worker (argv contains --vf-worker=<rfd>,<wfd>): documents arrive on <rfd> as <u32 length><u32 flags><bytes>
+//     (flags: 1 = also run mj_loadXML through a VFS, 2 = parse only, no compile/save, 4 = long time limit), each document is
+//     executed in a forked child; one result
 //     line per document is written to <wfd> (used by checks/c37.py for the schema-generated documents, so
 //     that a document that kills the process is attributed to exactly that document).
 //
@@ -32,8 +34,12 @@
 #include <fcntl.h>
 #include <pthread.h>
 #include <setjmp.h>
+#include <signal.h>
+#include <sys/prctl.h>
+#include <sys/wait.h>
 #include <unistd.h>
 
+#include <cerrno>
 #include <cstdint>
 #include <cstdio>
 #include <cstdlib>
@@ -181,7 +187,7 @@ bool StartsWith(const std::string& s, const char* p) { return s.compare(0, strle
 char* g_savebuf = nullptr;
 const int kSaveBuf = 4 << 20;
 
-void RunOne(const uint8_t* data, size_t size, bool with_load, Result& r) {
+void RunOne(const uint8_t* data, size_t size, bool with_load, bool parse_only, Result& r) {
   g_res = &r;
   size_t n = strnlen(reinterpret_cast<const char*>(data), size);
   std::string text(reinterpret_cast<const char*>(data), n);
@@ -212,7 +218,7 @@ void RunOne(const uint8_t* data, size_t size, bool with_load, Result& r) {
 
   // ---- compile
   mjModel* volatile model = nullptr;
-  if (spec) {
+  if (spec && !parse_only) {
     ok = Guarded("compile", r, [&] { model = mj_compile(spec, nullptr); });
     r.compile = model ? 1 : 0;
     if (ok && !model) {
@@ -394,16 +400,34 @@ int Worker(int rfd, int wfd) {
     buf.resize(len + 1);
     if (len && !ReadAll(rfd, buf.data(), len)) break;
     buf[len] = 0;
-    Result r;
-    RunOne(buf.data(), len, (flags & 1) != 0, r);
-    fprintf(out, "R\t%d\t%d\t%d\t%d\t%d\t%s\t%s\t%s\t%s\t%zu\t%zu", r.parse, r.compile, r.save, r.load, r.reached,
-            Esc(r.perr).c_str(), Esc(r.cerr).c_str(), Esc(r.serr).c_str(), Esc(r.lerr).c_str(), r.escapes.size(),
-            r.oracle.size());
-    for (const Escape& e : r.escapes)
-      fprintf(out, "\t%s\t%s\t%s\t%s", Esc(e.phase).c_str(), Esc(e.kind).c_str(), Esc(e.msg).c_str(), Esc(e.site).c_str());
-    for (const std::string& o : r.oracle) fprintf(out, "\t%s", Esc(o).c_str());
-    fprintf(out, "\n");
+    // every document runs in a forked child: a document that kills the process (sanitizer report, signal, exit())
+    // is attributed to exactly that document and costs no restart; abandoned calls (longjmp) cannot leak into the next one
     fflush(out);
+    fflush(stderr);
+    pid_t pid = fork();
+    if (pid < 0) return 4;
+    if (pid == 0) {
+      prctl(PR_SET_PDEATHSIG, SIGKILL);
+      alarm((flags & 4) ? 300 : 60);
+      Result r;
+      RunOne(buf.data(), len, (flags & 1) != 0, (flags & 2) != 0, r);
+      fprintf(out, "R\t%d\t%d\t%d\t%d\t%d\t%s\t%s\t%s\t%s\t%zu\t%zu", r.parse, r.compile, r.save, r.load, r.reached,
+              Esc(r.perr).c_str(), Esc(r.cerr).c_str(), Esc(r.serr).c_str(), Esc(r.lerr).c_str(), r.escapes.size(),
+              r.oracle.size());
+      for (const Escape& e : r.escapes)
+        fprintf(out, "\t%s\t%s\t%s\t%s", Esc(e.phase).c_str(), Esc(e.kind).c_str(), Esc(e.msg).c_str(), Esc(e.site).c_str());
+      for (const std::string& o : r.oracle) fprintf(out, "\t%s", Esc(o).c_str());
+      fprintf(out, "\n");
+      fflush(out);
+      _exit(0);
+    }
+    int st = 0;
+    while (waitpid(pid, &st, 0) < 0 && errno == EINTR) {}
+    if (!(WIFEXITED(st) && WEXITSTATUS(st) == 0)) {
+      // the child did not finish: "D <signal> <exit code>"; whatever it printed is in the stderr file
+      fprintf(out, "D\t%d\t%d\n", WIFSIGNALED(st) ? WTERMSIG(st) : 0, WIFEXITED(st) ? WEXITSTATUS(st) : -1);
+      fflush(out);
+    }
   }
   return 0;
 }
@@ -424,6 +448,17 @@ extern "C" void __cxa_throw(void* thrown, std::type_info* tinfo, void (*dest)(vo
   __builtin_unreachable();
 }
 
+#ifdef VF_PLAIN_MAIN
+// fast worker without libFuzzer/ASan (rel variant): same protocol, used for the bulk of the schema documents
+int main(int argc, char** argv) {
+  for (int i = 1; i < argc; i++) {
+    int rfd, wfd;
+    if (sscanf(argv[i], "--vf-worker=%d,%d", &rfd, &wfd) == 2) return Worker(rfd, wfd);
+  }
+  fprintf(stderr, "usage: %s --vf-worker=<rfd>,<wfd>\n", argv[0]);
+  return 2;
+}
+#else
 extern "C" int LLVMFuzzerInitialize(int* argc, char*** argv) {
   for (int i = 1; i < *argc; i++) {
     int rfd, wfd;
@@ -447,7 +482,8 @@ extern "C" int LLVMFuzzerTestOneInput(const uint8_t* data, size_t size) {
   std::vector<uint8_t> buf(data, data + size);
   buf.push_back(0);
   bool with_load = (Fnv(data, size) & 3) == 0;
-  RunOne(buf.data(), size, with_load, r);
+  RunOne(buf.data(), size, with_load, false, r);
   FuzzRecord(data, size, r);
   return 0;
 }
+#endif  // VF_PLAIN_MAIN
